@@ -297,14 +297,19 @@ def decide_from_corpus(prop, res, builtins, seed, only_programs=None):
     return violations, breaks
 
 
-def resolve_breaks(prop, res, breaks, builtins, seed, max_searches=3):
+def resolve_breaks(prop, res, breaks, builtins, seed, max_searches=5):
     """search for concrete failing inputs for broken correspondences; returns (violations, unresolved)"""
     rng = random.Random(seed + 17)
     found, unresolved = [], []
     by_prog = {}
     for b in breaks:
         by_prog.setdefault(b['program'], []).append(b)
-    for i, (nm, bs) in enumerate(by_prog.items()):
+    def reachable_first(item):
+        # breaks found from the `Init` entry (or in a lexer without rule sets) are reachable without switches
+        nm, bs = item
+        return 0 if any(('entry=Init' in b.get('detail', '') or 'entry=-' in b.get('detail', '') or b['kind'] == 'trace') for b in bs) else 1
+
+    for i, (nm, bs) in enumerate(sorted(by_prog.items(), key=reachable_first)):
         v = None
         if i < max_searches and prop in TRACE_PROPS + ['C02']:
             seeds = []
